@@ -18,7 +18,9 @@
 //        workers, refuse_mask (mode 1 only: which submissions the harness executor refuses)
 // Modes (--mode): -1 default mix; 0 = no concurrent injection; 1 = exploratory,
 // the harness executor refuses submissions (only termination / finished /
-// error code != 0 are judged); 2 = concurrent injection in most cycles.
+// error code != 0 are judged); 2 = concurrent injection in most cycles;
+// 3 = exploratory: like 2, but a vertex starting on an already flushed closure
+// is only counted (probe), so that its raw consequences become visible.
 // A dependency is kept only if its target and condition keys are lower than every
 // emit key of its vertex (acyclic by construction, also after deletions); data
 // without a producer are inputs.
@@ -28,6 +30,7 @@
 #include <babylon/anyflow/executor.h>
 #include <babylon/anyflow/graph.h>
 #include <babylon/anyflow/vertex.h>
+#include <babylon/logging/logger.h>
 
 #include <stdio.h>
 #include <string.h>
@@ -122,7 +125,7 @@ struct St {
   DepTrace dt[MAXV][MAXDEP];
   uint64_t inj_stamp[MAXD] = {};
   int injector_tid = -1;
-  bool cycle_conc = false;
+  bool cycle_conc = false, late_fatal = true;
   int refuse_mask = 0, refused = 0, attempts = 0;
 };
 St* S;
@@ -363,7 +366,8 @@ struct HExec : public af::GraphExecutor {
 // ---------------------------------------------------------------------------
 void vnum_watch(void*, const void*, uint64_t oldv, uint64_t newv) {
   if (!S || !S->tracing) return;
-  if (oldv == 0 && newv == 1)
+  if (oldv == 0 && newv == 1 && !S->late_fatal) probe("late_vertex_on_flushed_closure");
+  if (oldv == 0 && newv == 1 && S->late_fatal)
     fail("late-vertex", S->cycle_conc ? "concurrent-inject" : "no-external-input",
          "cycle %d: a vertex was invoked on a closure whose in-flight count had already dropped to zero (flush notified, wait() returns) — T%d", S->cycle, tid());
 }
@@ -489,7 +493,7 @@ bool do_cycle(int cy) {
   St& s = *S;
   const Cyc& C = s.cyc[cy];
   s.cycle = cy;
-  s.inflight = 0; s.injector_tid = -1;
+  s.inflight = 0; s.injector_tid = -1; s.refused = 0;
   for (int i = 0; i < MAXV; i++) { s.ninvoked[i] = 0; for (int j = 0; j < MAXDEP; j++) s.dt[i][j].n = 0; }
   for (int k = 0; k < MAXD; k++) { s.seals[k] = 0; s.inj_stamp[k] = 0; }
   for (int t = 0; t < 64; t++) s.releasing[t] = -1;
@@ -567,7 +571,7 @@ bool do_cycle(int cy) {
     if (s.inflight != 0) fail("wait-early", "in-flight-late", "cycle %d: %d vertex processors still running after wait() and the injector finished", cy, s.inflight);
     for (size_t vi = 0; vi < s.verts.size(); vi++)
       if (s.ninvoked[vi] > 1) fail("ran-twice", "end", "cycle %d: vertex %d invoked %d times", cy, s.verts[vi].key, s.ninvoked[vi]);
-    for (int k = 0; k < s.nd; k++) if (s.gd[k]) { hb_unregister(&s.gd[k]->_data); hb_unregister(&s.gd[k]->_empty); s.gd[k] = nullptr; }
+    for (int k = 0; k < s.nd; k++) if (s.gd[k]) { hb_unregister(&s.gd[k]->_data); hb_unregister(&s.gd[k]->_empty); preempt_unregister(&s.gd[k]->_empty); s.gd[k] = nullptr; }
     s.tracing = false;
     cl = af::Closure();
     set_crash_site(nullptr);
@@ -625,6 +629,14 @@ bool do_cycle(int cy) {
 void run(const Plan& p) {
   S = new St();
   St& s = *S;
+  {
+    // failing runs log warnings; keep them off stderr (public configuration API)
+    babylon::LoggerBuilder lb;
+    lb.set_min_severity(babylon::LogSeverity::FATAL);
+    babylon::LoggerManager::instance().set_root_builder(std::move(lb));
+    babylon::LoggerManager::instance().apply();
+  }
+  s.late_fatal = p.get("late_fatal", 1) != 0;
   s.mode = p.get("refuse_mask", 0) != 0 ? 1 : 0;
   s.refuse_mask = (int)p.get("refuse_mask", 0);
   parse(p);
@@ -663,6 +675,9 @@ void run(const Plan& p) {
     if (!s.gd[k]) fail("api", "find_data", "data d%d not found in the built graph", k);
     hb_register(&s.gd[k]->_data, sizeof(s.gd[k]->_data), "graphdata-value");
     hb_register(&s.gd[k]->_empty, sizeof(s.gd[k]->_empty), "graphdata-empty");
+    // scheduling points on the plain reads of a condition's value: widens the
+    // window between the two decrements of a failing condition (dependency.cpp)
+    preempt_register(&s.gd[k]->_empty, sizeof(s.gd[k]->_empty));
     watch(&s.gd[k]->_closure, sizeof(void*), seal_watch, &s.seals[k]);
   }
   for (size_t vi = 0; vi < s.verts.size(); vi++) {
@@ -680,7 +695,7 @@ void run(const Plan& p) {
   if (!any) { if (pool) pool->stop(); skip("no-cycle"); }
   if (pool) pool->stop();
   while (others_alive() > 0) ::usleep(1000);
-  for (int k = 0; k < s.nd; k++) if (s.gd[k]) { hb_unregister(&s.gd[k]->_data); hb_unregister(&s.gd[k]->_empty); }
+  for (int k = 0; k < s.nd; k++) if (s.gd[k]) { hb_unregister(&s.gd[k]->_data); hb_unregister(&s.gd[k]->_empty); preempt_unregister(&s.gd[k]->_empty); }
   s.graph.reset();
   delete gb;
   delete pool;
@@ -714,6 +729,9 @@ int gen_diamond(Rng& r, std::function<void(int, int64_t, int64_t, int64_t)> add,
   add(K_EMIT, 1, 2, x);
   if (y >= 0) add(K_EMIT, 1, 2, y);
   if (r.chance(2, 3)) add(K_DEP, 1, 2, (int64_t)r.below((uint64_t)ni));
+  // V itself may depend on an input under the *other* branch's condition: its
+  // activation (by the thread that established c1) then races with c2 becoming ready
+  if (r.chance(1, 2)) add(K_DEP, 1, 2, (int64_t)r.below((uint64_t)ni) | ((int64_t)((r.chance(3, 4) ? c2 : c1) + 1) << 8) | ((int64_t)r.below(2) << 16));
   for (int v = 3; v < 5; v++) {
     add(K_VERTEX, (int64_t)r.range(1, 30), v, vflags(true));
     add(K_EMIT, 1, v, k++);
@@ -786,10 +804,11 @@ void gen(Rng& r, Plan& p, const GenParams& gp) {
   p.cfg["workers"] = (int64_t)r.range(diamond ? 2 : 1, 3);
   p.cfg["refuse_mask"] = gp.mode == 1 ? (int64_t)r.range(1, 63) : 0;
   p.cfg["max_idle_jumps"] = 6000;
+  p.cfg["late_fatal"] = gp.mode == 3 ? 0 : 1;
   for (int c = 0; c < ncyc; c++) {
     int t = c + 1;
     add(t, K_CYCLE, (int64_t)r.range(0, 30), 0, 0);
-    bool conc_cycle = (gp.mode < 0 && r.chance(7, 20)) || (gp.mode == 2 && r.chance(4, 5));
+    bool conc_cycle = (gp.mode < 0 && r.chance(7, 20)) || (gp.mode >= 2 && r.chance(4, 5));
     for (int k = 0; k < nd; k++) {
       bool input = k < ni;
       if (input ? !r.chance(48, 50) : !r.chance(diamond ? 1 : 3, 50)) continue;
